@@ -11,7 +11,8 @@
                                          pk, pn, pb   reply before suppression ("bytes" | "none" | "unknown"),
                                          vk, vn, vb   reply sent ("bytes" | "none"),
                                          x  exception class or "",  s, l  state after,
-                                         a  client verdict,  al  connection loop alive} ... ]} ... ]
+                                         a  client verdict,  al  connection loop alive,
+                                         g  (optional) seconds since the previous request} ... ]} ... ]
    mode "E": clauses E1..E4 of C13;  mode "A": clauses A1..A3 of C14.
    One initial state per trace; the verdict is total: "ok" or the label of the
    first clause broken, plus the set of ALL failing <<step, label>> pairs and
@@ -40,9 +41,15 @@ X(e) == [q |-> [b |-> e.q, n |-> e.n, p |-> e.p],
          pre |-> Rep(e.pk, e.pn, e.pb), vis |-> Rep(e.vk, e.vn, e.vb),
          raised |-> e.x, after |-> StateOf(e), acc |-> e.a, alive |-> e.al]
 
+\* optional step field g: whole seconds of the server's clock between the previous request and this one, during
+\* which tester connections may have come and gone (histories over several connections); steps without it are
+\* judged as before
 SV(t, i) ==
-  IF t.mode = "E" THEN StepVerdictE(Views[t.m], SeqSet(t.B), Before(t, i), X(t.steps[i]))
-                  ELSE StepVerdictA(Views[t.m], Before(t, i), X(t.steps[i]))
+  IF t.mode = "E"
+  THEN IF "g" \in DOMAIN t.steps[i]
+       THEN StepVerdictEG(Views[t.m], SeqSet(t.B), Before(t, i), t.steps[i].g, X(t.steps[i]))
+       ELSE StepVerdictE(Views[t.m], SeqSet(t.B), Before(t, i), X(t.steps[i]))
+  ELSE StepVerdictA(Views[t.m], Before(t, i), X(t.steps[i]))
 
 Min(S) == CHOOSE x \in S : \A y \in S : x <= y
 Result(t) ==
